@@ -21,7 +21,7 @@ META = {
     "anchors": ["func_adl/object_stream.py", "func_adl/ast/meta_data.py"],
 }
 KEYS = ["a", "b", "c", "title"]
-VALUES = [1, 2, "x", (1, 2), {"n": 1}, 0, False, "", 0.0, (), True]
+VALUES = [1, 2, "x", (1, 2), {"n": 1}, 0, False, "", 0.0, (), True, ["a.root"], ["a.root", "b.root"], ["b.root"], []]
 
 
 def run_history(ctx, hseed, nsteps):
